@@ -61,7 +61,7 @@ def _realise(p) -> Realisation:
     n = int(p["n"])
     edges = edges_from_code(n, int(p["code"])) if "code" in p else p["edges"]
     x_nodes = [i % n for i in p.get("x_nodes", [])]
-    return Realisation(n, edges, p.get("two_out"), x_nodes)
+    return Realisation(n, edges, p.get("two_out"), x_nodes, p.get("opt"))
 
 
 def _orders(p, n):
@@ -149,7 +149,7 @@ def classify_graph(ctx, real: Realisation, n_stages: int, exact: bool, p, order)
         ctx.cls("stages>=2")
     if has_scc and n_stages >= 2:
         ctx.cls("NONTRIVIAL_scc>=2_and_stages>=2")
-        ctx.nontriv(("graph", n, p.get("code"), p.get("edges"), p.get("two_out"), p.get("x_nodes"), p.get("dup"), order))
+        ctx.nontriv(("graph", n, p.get("code"), p.get("edges"), p.get("two_out"), p.get("x_nodes"), p.get("dup"), p.get("opt"), order))
     if sum(1 for i in range(n) if len(real.group_of(i)) >= 2 and real.comp[i] == i) >= 2:
         ctx.cls("two_or_more_scc>=2")
     if any(real.self_loop):
@@ -166,6 +166,12 @@ def classify_graph(ctx, real: Realisation, n_stages: int, exact: bool, p, order)
         ctx.cls("single_scc")
     if exact:
         ctx.cls("coupling_sets_pinned_exactly")
+    if any(real.producer.get(name) not in (None, j) for j, name in real.optional):
+        ctx.cls("edge_through_optional_input")
+    strong = real.strong_couplings_bounds()[0]
+    if any(real.is_strong(i) and name not in strong and any(real.is_strong(j) and j != i for j in real.consumers(name))
+           for name, i in real.producer.items()):
+        ctx.cls("variable_from_a_cycle_to_another_group_only")
     if order != sorted(order):
         ctx.cls("permuted_listing")
 
@@ -206,20 +212,28 @@ def small_graph_payloads(ctx):
             if k % ctx.n_shards == ctx.shard:
                 yield {"n": n, "code": code, "orders": [0, -1], "dup": True}
             k += 1
+    # every graph with 2 and 3 nodes again with optional (non-required, defaulted) inputs: all of them, then a mixed pattern
+    for n in (2, 3):
+        for code in range(2 ** (n * n)):
+            if k % ctx.n_shards == ctx.shard:
+                yield {"n": n, "code": code, "orders": [0, -1, 2], "dup": False, "opt": [1]}
+                yield {"n": n, "code": code, "orders": [1, -2], "dup": False, "opt": [1, 0, 0, 1, 0]}
+            k += 1
 
 
 def n4_payloads(ctx):
     total = 2 ** 16
     if ctx.tier == "thorough":
         for code in range(ctx.shard, total, ctx.n_shards):
-            yield {"n": 4, "code": code, "orders": "all", "dup": code % 5 == 0}
+            yield {"n": 4, "code": code, "orders": "all", "dup": code % 5 == 0,
+                   "opt": [] if code % 3 else [(code >> 4) & 1, 1, (code >> 7) & 1, (code >> 9) & 1, 0]}
     else:
         count = max(1, int(total // STRIDE_N4 * ctx.budget_scale))
         offset = (ctx.seed * 7919) % total
         for k in range(count):
             code = (offset + k * STRIDE_N4) % total
             yield {"n": 4, "code": code, "orders": [0, (code * 7 + ctx.seed * 13) % 24, (code * 11 + ctx.seed * 5 + 1) % 24],
-                   "dup": k % 7 == 0}
+                   "dup": k % 7 == 0, "opt": [] if k % 3 else [(code >> 4) & 1, 1, (code >> 7) & 1, (code >> 9) & 1, 0]}
 
 
 @st.composite
@@ -264,7 +278,8 @@ def random_graphs(draw):
     x_nodes = draw(st.lists(st.integers(0, n - 1), max_size=3, unique=True))
     order = draw(st.permutations(list(range(n))))
     return {"n": n, "edges": edges, "two_out": two_out, "x_nodes": x_nodes, "orders": [list(order)],
-            "dup": draw(st.integers(0, 4)) == 0}
+            "dup": draw(st.integers(0, 4)) == 0,
+            "opt": draw(st.one_of(st.just([]), st.lists(st.integers(0, 1), min_size=1, max_size=7)))}
 
 
 # --------------------------------------------------------------------------- composition part
@@ -313,6 +328,10 @@ def systems(draw):
         "inner": draw(st.sampled_from(["MDAJacobi", "MDAGaussSeidel"])),
         "parallel": draw(st.booleans()),
         "init_defaults": draw(st.booleans()),
+        # inputs that are optional (non-required, with a default value) in the consumer's grammar
+        "opt": draw(st.one_of(st.just([]), st.lists(st.integers(0, 1), min_size=1, max_size=7))),
+        # cycle groups / self-coupled nodes (index modulo their number) handed to MDAChain as ONE MDOChain node
+        "wrap": draw(st.one_of(st.just([]), st.just([]), st.lists(st.integers(0, 3), min_size=1, max_size=2, unique=True))),
     }
 
 
@@ -334,7 +353,7 @@ def case_composition(p, ctx):
     from gemseo.mda.mda_chain import MDAChain
 
     n = int(p["n"])
-    real = Realisation(n, p["edges"], p.get("two_out"), [i % n for i in p["x_nodes"]])
+    real = Realisation(n, p["edges"], p.get("two_out"), [i % n for i in p["x_nodes"]], p.get("opt"))
     system = LinearSystem(real, p["sizes"], p["coef"], float(p["q"]), int(p["nx"]))
     order = [int(v) for v in p["order"]]
     ext = {}
@@ -347,6 +366,21 @@ def case_composition(p, ctx):
     # (a) MDAChain in the listing order
     discs = system.disciplines(dup)
     listed = [discs[i] for i in order]
+    # optionally hand whole cycle groups / self-coupled nodes to MDAChain as ONE MDOChain node (a self-coupled process
+    # discipline, alone in its group, which the MDA chain has to converge); the flat reference is unchanged
+    strong_groups = sorted({real.comp[i] for i in range(n) if real.is_strong(i)})
+    wrapped = sorted({strong_groups[int(w) % len(strong_groups)] for w in p.get("wrap", [])}) if strong_groups else []
+    if wrapped:
+        new_listed, done = [], set()
+        for i in order:
+            g = real.comp[i]
+            if g in wrapped:
+                if g not in done:
+                    done.add(g)
+                    new_listed.append(MDOChain([discs[j] for j in order if real.comp[j] == g], name=f"W{g}"))
+            else:
+                new_listed.append(discs[i])
+        listed = new_listed
     inner_settings = {"n_processes": 1} if p["inner"] == "MDAJacobi" else {}
     mda = MDAChain(
         listed, inner_mda_name=p["inner"], tolerance=1e-12, max_mda_iter=200, inner_mda_settings=inner_settings,
@@ -355,7 +389,10 @@ def case_composition(p, ctx):
     )
     mda.scaling = mda.ResidualScaling.NO_SCALING
     node_of = {id(d): i for i, d in enumerate(discs)}
-    n_stages, _ = check_structure(ctx, mda.coupling_structure, listed, node_of, real, order)
+    if wrapped:
+        n_stages = len(mda.coupling_structure.sequence)  # the structure oracle applies to the flat list only
+    else:
+        n_stages, _ = check_structure(ctx, mda.coupling_structure, listed, node_of, real, order)
     out = mda.execute({k: v.copy() for k, v in ext.items()})
     for sub in mda.inner_mdas:
         # a non-converged inner MDA is C06's subject, not a composition error: do not judge such a case
@@ -397,7 +434,7 @@ def case_composition(p, ctx):
         ctx.cls("comp_stages>=2")
     if has_scc and n_stages >= 2:
         ctx.cls("comp_NONTRIVIAL")
-        ctx.nontriv(("comp", n, p["edges"], p.get("two_out"), p["x_nodes"], order, p["sizes"], p["coef"], p["q"], p["inner"]))
+        ctx.nontriv(("comp", n, p["edges"], p.get("two_out"), p["x_nodes"], order, p["sizes"], p["coef"], p["q"], p["inner"], p.get("opt"), p.get("wrap")))
     if any(real.self_loop[i] and len(real.group_of(i)) == 1 for i in range(n)):
         ctx.cls("comp_self_loop_singleton")
     if any(real.self_loop[i] and len(real.group_of(i)) > 1 for i in range(n)):
@@ -406,6 +443,10 @@ def case_composition(p, ctx):
         ctx.cls("comp_parallel_stage")
     if dup:
         ctx.cls("comp_duplicated_names")
+    if wrapped:
+        ctx.cls("comp_cycle_group_wrapped_in_one_MDOChain_node")
+    if any(real.producer.get(name) not in (None, j) for j, name in real.optional):
+        ctx.cls("comp_edge_through_optional_input")
     if order != sorted(order):
         ctx.cls("comp_permuted_listing")
     ctx.sample({"oracle": "composition", "case": p})
